@@ -137,40 +137,66 @@ SAN_ENV = {"ASAN_OPTIONS": "halt_on_error=0:detect_leaks=0:allocator_may_return_
            "UBSAN_OPTIONS": "print_stacktrace=0:halt_on_error=1", "LSAN_OPTIONS": "exitcode=0"}
 
 
+LINE_TIMEOUT = 30      # seconds without an output line before the process counts as hung on the current input line
+
+
 def _run_chunk(args):
+    """feeds the lines to one process; a crash or a hang (no output line for `line_timeout` seconds) ends that process,
+    is recorded as a CRASH line for the input line it was working on, and the rest goes to a fresh process"""
+    import select
     exe_cmd, lines, env, timeout = args
+    line_timeout = min(timeout, LINE_TIMEOUT) if timeout else LINE_TIMEOUT
     outs = []
     i = 0
     crashes = 0
     while i < len(lines):
-        data = "\n".join(lines[i:]) + "\n"
-        with tempfile.TemporaryFile() as errf:
+        with tempfile.TemporaryFile() as inf, tempfile.TemporaryFile() as errf:
+            inf.write(("\n".join(lines[i:]) + "\n").encode())
+            inf.seek(0)
+            p = subprocess.Popen(exe_cmd, stdin=inf, stdout=subprocess.PIPE, stderr=errf, env=env)
+            fd = p.stdout.fileno()
+            buf = b""
+            got = []
+            rc = None
+            need = len(lines) - i
+            while len(got) < need:
+                rl, _, _ = select.select([fd], [], [], line_timeout)
+                if not rl:
+                    rc = "timeout"
+                    p.kill()
+                    break
+                chunk = os.read(fd, 1 << 16)
+                if not chunk:
+                    break
+                buf += chunk
+                while b"\n" in buf:
+                    ln, buf = buf.split(b"\n", 1)
+                    got.append(ln.decode(errors="replace"))
             try:
-                r = subprocess.run(exe_cmd, input=data, stdout=subprocess.PIPE, stderr=errf, text=True, env=env, timeout=timeout)
-                got = r.stdout.split("\n")
-                rc = r.returncode
-            except subprocess.TimeoutExpired as e:
-                so = e.stdout or ""
-                if isinstance(so, bytes):
-                    so = so.decode(errors="replace")
-                got = so.split("\n")
-                rc = "timeout"
-            if got and got[-1] == "":
-                got.pop()
-            complete = got
-            if len(complete) >= len(lines) - i:
-                outs.extend(complete[:len(lines) - i])
+                p.stdout.close()
+            except Exception:
+                pass
+            try:
+                r = p.wait(timeout=10)
+            except subprocess.TimeoutExpired:
+                p.kill()
+                r = p.wait()
+            if rc is None:
+                rc = r
+            if len(got) >= need:
+                outs.extend(got[:need])
                 break
-            # the process died (or hung) while working on line i+len(complete)
+            # the process died (or hung) while working on line i+len(got)
             errf.seek(0)
             tail = errf.read()[-1500:].decode(errors="replace")
             m = re.search(r"(runtime error: [^\n]*|ERROR: AddressSanitizer: [^\n]*|SUMMARY: [^\n]*)", tail)
-            outs.extend(complete)
-            outs.append("CRASH rc=%s %s" % (rc, (m.group(1) if m else tail.strip().split("\n")[-1] if tail.strip() else "")[:200]))
-            i += len(complete) + 1
+            outs.extend(got)
+            what = "no output for %ds (hang)" % line_timeout if rc == "timeout" else (m.group(1) if m else tail.strip().split("\n")[-1] if tail.strip() else "")
+            outs.append("CRASH rc=%s %s" % (rc, what[:200]))
+            i += len(got) + 1
             crashes += 1
-            if crashes > 200:
-                outs.extend(["CRASH skipped-after-200-crashes"] * (len(lines) - i))
+            if crashes > 40:
+                outs.extend(["CRASH skipped-after-40-crashes"] * (len(lines) - i))
                 break
     return outs
 
